@@ -37,6 +37,7 @@ func Execute(r *Rule, ctx *an.Ctx) {
 	r.Run(ctx)
 	runLockTable(r.ID, ctx)
 	runErrTable(r.ID, ctx)
+	runProvTable(r.ID, ctx)
 	done := map[string]*an.Ctx{}
 	for _, im := range r.Imports {
 		prop := im.From
